@@ -169,6 +169,21 @@ static bool check_summary(const struct cmb_datasummary *s, const struct ref *r, 
             return false;
         }
     }
+    /* every statistic and the printed report must be computable for every input, also constant data
+     * (inside an experiment invalid operations and divisions by zero trap): the values of the higher
+     * moments are compared below only where they are defined and well conditioned */
+    {
+        const double sk = cmb_datasummary_skewness(s), ku = cmb_datasummary_kurtosis(s);
+        vx_outcome(vx_hash_bytes(3, &sk, 8) ^ vx_hash_bytes(4, &ku, 8));
+        char *buf = NULL;
+        size_t len = 0;
+        FILE *fp = open_memstream(&buf, &len);
+        if (fp) {
+            cmb_datasummary_print(s, fp, false);
+            fclose(fp);
+            free(buf);
+        }
+    }
     /* higher moments only for well-conditioned data (spread not negligible against the offset) */
     const bool conditioned = r->var > 0 && (double)sqrtl((long double)r->var) > 1e-7 * r->amax;
     if (r->count > 2 && conditioned) {
